@@ -88,7 +88,7 @@ fn main() {
         if !h.clears().is_empty() {
             r.observe("histories:exercised-truncation", 1);
         }
-        if r.wants_sample() && flushes > 1 && h.batches.len() >= 3 && h.sends.len() >= 8 && h.sends.len() <= 80 {
+        if !cfg!(miri) && r.wants_sample() && flushes > 1 && h.batches.len() >= 3 && h.sends.len() >= 8 && h.sends.len() <= 80 {
             r.sample(|| sample_json(&h));
         }
     };
